@@ -49,7 +49,7 @@ def run(tier, replay=None):
         alpha = list("abLDACBRZNOPSVTIMFU -\n#0123456789_")
         for k in range(nrnd):
             cases.append({'id': 'bytes%d' % k, 'src': fuzzlib.random_bytes(rng, 2048, alpha), 'fam': 'bytes'})
-        for c in asmlib.coupled_cases(True):
+        for c in asmlib.coupled_cases(True) + asmlib.cascade_cases(tier != "quick"):
             cases.append({'id': c['id'], 'src': c['src'], 'fam': 'coupled'})
         cases += [c for c in scale if c['id'].endswith(':1000')]
         cases.append({'id': 'empty', 'src': "", 'fam': 'edge'})
